@@ -90,6 +90,46 @@ def unmanaged_case(old_src, new_src, leafvals, approved, extra_ns=None, star=Fal
     return True
 
 
+def never_compared_case(old_src, leafvals, extra_ns, approved):
+    """a snapshot that no test compares: whatever is approved, star-expressions, f-strings and Is(...) in it keep their
+    text, the file stays valid Python and the argument keeps its value"""
+    ns = dict(SUPPORT_NS)
+    ns["Is"] = Is
+    ns.update(extra_ns or {})
+    ns.update(leafvals)
+    world.reset(ns)
+    t = HEAD + f"s_unused = snapshot({old_src})\n\n\ndef test_a():\n    pass\n"
+    r = world.core_session(t, approved)
+    with world.NoTracing():
+        text = str(r.text)
+        try:
+            ast.parse(text)
+        except SyntaxError:
+            PathLog.record("nc-syntax" + text, nontrivial=True, sample={"previous": old_src, "rewritten_file": text[-120:]})
+            return False
+        arg = world.snapshot_arg_sources(text)[0]
+        keep = re.findall(r'\*\*?\w+|Is\([^()]*\)|f"[^"]*"', old_src)
+    PathLog.record("nc" + old_src + "=>" + arg, nontrivial=arg != old_src, sample={"previous": old_src, "approved": sorted(approved), "rewritten": arg})
+    for u in keep:
+        if u not in arg:
+            return False
+    env = world.eval_ns()
+    return eval(arg, dict(env)) == eval(old_src, dict(env))
+
+
+NEVER_COMPARED = [
+    ("star_list", "[*rest, h0]", ["h0", "c1"], "{'rest': [c1]}"),
+    ("star_list_two", "[h0, *rest]", ["h0", "c1"], "{'rest': [c1, c1]}"),
+    ("star_dict", "{**rest, 3: h0}", ["h0", "c1"], "{'rest': {2: c1}}"),
+    ("star_call", "P(*rest, b=h0)", ["h0", "c1"], "{'rest': [c1]}"),
+    ("star_call_kw", "P(h0, **rest)", ["h0", "c1"], "{'rest': {'b': c1}}"),
+    ("star_nested", "{1: [*rest], 2: h0}", ["h0", "c1"], "{'rest': [c1, c1]}"),
+    ("fstring", '[f"{s0}!", h0]', ["h0"], "{'s0': 'abc'}"),
+    ("fstring_top", 'f"{s0}"', [], "{'s0': 'abc'}"),
+    ("is_list", "[Is(c1), h0]", ["h0", "c1"], "None"),
+]
+
+
 def in_is_case(leafvals, approved):
     """`x in snapshot([Is(c0), h1])`: whatever is approved, the Is(...) element is not rewritten"""
     ns = {"Is": Is}
@@ -201,7 +241,7 @@ def survival_keyed(old_src, new_src, keys_old, leafvals):
     return world.snapshot_values(r.text)[0] == new
 
 
-GLB = {"in_is_case": in_is_case, "unmanaged_case": unmanaged_case, "is_equal_case": is_equal_case, "survival_case": survival_case, "survival_keyed": survival_keyed, "__name__": "harness.c10"}
+GLB = {"never_compared_case": never_compared_case, "in_is_case": in_is_case, "unmanaged_case": unmanaged_case, "is_equal_case": is_equal_case, "survival_case": survival_case, "survival_keyed": survival_keyed, "__name__": "harness.c10"}
 
 CASES = [
     # name, previous source, observed source, symbolic names, extra namespace, star
@@ -271,6 +311,12 @@ def conditions(tier):
             cname = f"unm_{name}_{''.join(sorted(c[0] for c in sub)) or 'none'}"
             conds.append(Cond(cname, mkfn(cname, [(x, "int") for x in names], body, GLB), timeout=900, group="unmanaged",
                               bounds=f"previous `{o}`, observed `{n}` (all int leaves symbolic), approved {sorted(sub)}"))
+    for name, o, names, ex in NEVER_COMPARED:
+        for sub in ({"update"}, {"create", "fix", "trim", "update"}):
+            cname = f"never_compared_{name}_{''.join(sorted(c[0] for c in sub))}"
+            body = f"return never_compared_case({o!r}, {{{', '.join(f'{x!r}: {x}' for x in names)}}}, {ex}, {sub!r})"
+            conds.append(Cond(cname, mkfn(cname, [(x, "int") for x in names] or [("dummy", "int")], body, GLB), timeout=600, group="never-compared",
+                              bounds=f"module-level `snapshot({o})` that no test compares (h0 hand-written int, rest/s0 user data), approved {sorted(sub)}"))
     for name, o, n, names in [("list", "[c0, Is(c1), c2]", "[n0, n1, n2]", ["c0", "c1", "c2", "n0", "n1", "n2"]), ("dc", "P(a=c0, b=Is(c1))", "P(a=n0, b=n1)", ["c0", "c1", "n0", "n1"])]:
         body = f"return is_equal_case({o!r}, {n!r}, {{{', '.join(f'{x!r}: {x}' for x in names)}}})"
         conds.append(Cond(f"unm_equal_{name}", mkfn(f"unm_equal_{name}", [(x, "int") for x in names], body, GLB), timeout=600, group="unmanaged", bounds=f"`{o}` vs `{n}`: nothing is rewritten when everything matches"))
